@@ -238,6 +238,23 @@ class C06Life(Monitor):
             self.mc_before[d.id] = d.metaepoch_count
             if d.is_active and not (hib and d._hibernating):
                 self.must_run.add(d.id)
+        if hib:
+            # run order of a metaepoch: deepest level first, newest deme first, root last
+            order = [d for lvl in reversed(tree.levels) for d in reversed(lvl) if d.is_active]
+            seen_sleeper = False
+            for d in order:
+                if d._hibernating:
+                    seen_sleeper = True
+                elif seen_sleeper:
+                    self.cov("hibernating_deme_ahead_of_an_awake_one_in_run_order")
+                    break
+
+    def on_init(self, deme, start, end):
+        if type(deme).__name__ == "LocalDeme" and self.ctx.tree is not None:
+            for lvl in self.ctx.tree.levels:
+                for p_ in lvl:
+                    if p_.id in self.inactive and any(i is deme._sprout_seed for i in p_.all_individuals):
+                        self.cov("local_deme_sprouted_from_a_stopped_parent")
 
     def on_deme_enter(self, deme):
         self.enters[deme.id] += 1
